@@ -4,7 +4,7 @@ from __future__ import annotations
 
 from .. import gen, probe, spec
 from ..probe import violation
-from .common import call, grow_while_asking, use_as_input_of_derivations
+from .common import scale_leg, call, grow_while_asking, use_as_input_of_derivations
 
 PROP = "C07"
 LEVEL = "exploration"
@@ -43,6 +43,7 @@ AMBIG = [
 
 def run_case(ctx, g, rng):
     api, S = ctx.api, probe.S
+    scale_leg(ctx, rng, rng.choice([":", ":", "/", "::"]), modes=False, g=g)
     if g % 3 == 0:
         d = ":"
         recs = [spec.Rec(p, u, tuple(ps), tuple(us), None) for p, u, ps, us in rng.choice(AMBIG)]
